@@ -432,6 +432,28 @@ def wfLocs : List Location.PLoc → Bool
 end
 
 mutual
+/-- the part of `wfLoc` on which the location STRUCTURE read back is a theorem (it is C02's domain:
+`Insdc.Rep` with `InRange`, `Arity`): every span lies forward on a sequence (`0 ≤ Start < End`) and no
+node with ONE operand carries the `Join` flag (INSDC joins have two operands or more).  Outside it —
+negative / `{0,0}` / reversed coordinates below an operator, `join(x)` — the structure is tested only. -/
+def locR : Location.PLoc → Bool
+  | ⟨start, stop, _, join, _, _, subs⟩ =>
+    match subs with
+    | [] => decide (0 ≤ start) && decide (start < stop)
+    | [s] => !join && locR s
+    | s :: t :: ss => locsR (s :: t :: ss)
+def locsR : List Location.PLoc → Bool
+  | [] => true
+  | l :: ls => locR l && locsR ls
+end
+
+/-- … and a single span with ANY integers (C02 `read_write_leaf`) -/
+def plainLeaf (p : Location.PLoc) : Bool := p.subs.isEmpty && !p.complement && !p.join
+
+/-- the structural locations for which `parseLocation (buildLoc p) ≈ p` is proved -/
+def locProved (p : Location.PLoc) : Bool := wfLoc p && (locR p || plainLeaf p)
+
+mutual
 /-- partial markers belong to spans; on a node with operands they are derived (set iff set
 somewhere below), and so is `Join` of a node with several operands (`BuildLocationString` and
 `getFeatureSequence` treat it as a join whatever the flag says): both are recomputed before two
@@ -474,6 +496,10 @@ def cacheConsistent (f : Feature) : Bool :=
 
 def wfFeatureRT (f : Feature) : Bool :=
   f.attributes.all wfQualRT && (if f.gbkLocationString != [] then cacheConsistent f else wfLoc f.sequenceLocation)
+
+/-- the feature's location structure is inside the proved part: written from a cached text
+(`cacheConsistent`), or a structure of `locProved` -/
+def wfFeatureLoc (f : Feature) : Bool := f.gbkLocationString != [] || locProved f.sequenceLocation
 
 /-- ROUND-TRIP domain -/
 def wfSeq (x : Sequence) : Bool :=
@@ -574,12 +600,15 @@ def readBack (t : Str) : Str := textOf (lines (StrBuild.wrapString t 68))
 def readBackRange (num range : Str) : Str :=
   (mkBlock "REFERENCE".toList (readBack (num ++ "  ".toList ++ range)) []).text
 
+/-- a reference as it is read back: its number set, every text as its wrapped lines re-join -/
+def lossyRef (i : Nat) (r : Reference) : Reference :=
+  { r with index := refNum i r, range := readBackRange (refNum i r) r.range, authors := readBack r.authors,
+           title := readBack r.title, journal := readBack r.journal, pubMed := readBack r.pubMed,
+           remark := readBack r.remark }
+
 def lossyRefs : Nat → List Reference → List Reference
   | _, [] => []
-  | i, r :: rs =>
-    { r with index := refNum i r, range := readBackRange (refNum i r) r.range, authors := readBack r.authors,
-             title := readBack r.title, journal := readBack r.journal, pubMed := readBack r.pubMed,
-             remark := readBack r.remark } :: lossyRefs (i + 1) rs
+  | i, r :: rs => lossyRef i r :: lossyRefs (i + 1) rs
 
 /-- the record that the two known findings predict to come back: blank runs at wrap points become
 one blank and the LOCUS line of a name-less record is read one token to the left; besides, an UNSET
@@ -599,15 +628,50 @@ def expectedBack (x : Sequence) : Sequence :=
       references := lossyRefs 0 m.references,
       other := m.other.map fun kv => (kv.1, readBack kv.2) } }
 
-/-- class C03-blank-run-at-wrap: a run of two or more blanks in a metadata value lands on a wrap point -/
+/-- `WrapString(t, 68)` writes fewer characters than `t` has.  Every line break it makes stands for ONE
+blank unless a run of two or more blanks falls on the wrap point (Lemmas/GbWrapRel.lean: `WrappedS`), so
+this says: a run of blanks of `t` falls on a wrap point.  Computed from the value and the writer's wrap
+columns only — no reader is involved. -/
+def losesBlanks (t : Str) : Bool := (StrBuild.wrapString t 68).length != t.length
+
+/-- the range of a REFERENCE line as `WrapString` writes it at its column, i.e. behind the number and the
+line's own two blanks (which are written, or replaced by one newline) -/
+def rangeWrapped (num range : Str) : Str :=
+  match StrBuild.wrapGo 68 num.length [] [' ', ' '] range with
+  | '\n' :: o => o
+  | o => o.drop 2
+
+def rangeLosesBlanks (num range : Str) : Bool := range != [] && (rangeWrapped num range).length != range.length
+
+def refsLoseBlanks : Nat → List Reference → Bool
+  | _, [] => false
+  | i, r :: rs =>
+    rangeLosesBlanks (refNum i r) r.range || losesBlanks r.authors || losesBlanks r.title || losesBlanks r.journal
+      || losesBlanks r.pubMed || losesBlanks r.remark || refsLoseBlanks (i + 1) rs
+
+/-- class C03-blank-run-at-wrap (syntactic): the record has a locus name (name-less records are the
+other class) and in some metadata value a run of two or more blanks falls on a wrap point of the line
+`Build` writes it on -/
 def clsBlankRun (x : Sequence) : Bool :=
   let m := x.metadata
-  let e := (expectedBack x).metadata
-  m.definition != e.definition || m.accession != e.accession || m.version != e.version || m.keywords != e.keywords
-    || m.source != e.source || m.organism != e.organism
-    || (m.other.map Prod.snd) != (e.other.map Prod.snd)
-    || (m.references.map fun r => (r.range, r.authors, r.title, r.journal, r.pubMed, r.remark))
-        != (e.references.map fun r => (r.range, r.authors, r.title, r.journal, r.pubMed, r.remark))
+  m.locus.name != [] &&
+    (losesBlanks m.definition || losesBlanks m.accession || losesBlanks m.version || losesBlanks m.keywords
+      || losesBlanks m.source || losesBlanks m.organism
+      || m.other.any (fun kv => losesBlanks kv.2) || refsLoseBlanks 0 m.references)
+
+/-- the text holds two adjacent blanks -/
+def hasBlankRun : Str → Bool
+  | ' ' :: ' ' :: _ => true
+  | _ :: r => hasBlankRun r
+  | [] => false
+
+def refTexts (r : Reference) : List Str := [r.range, r.authors, r.title, r.journal, r.pubMed, r.remark]
+
+/-- every metadata text of a record that `Build` passes through `WrapString` -/
+def metaTexts (x : Sequence) : List Str :=
+  let m := x.metadata
+  [m.definition, m.accession, m.version, m.keywords, m.source, m.organism] ++ m.other.map Prod.snd
+    ++ m.references.flatMap refTexts
 
 /-- the judge's layout domain MINUS the two known findings: the domain of the layout theorem.  Metadata
 may hold runs of blanks as long as none of them falls on a wrap point of `WrapString(_, 68)`. -/
